@@ -7,7 +7,7 @@ tree (VERIF_REPO / VERIF_WORK point the machinery at the scratch copies; /repo i
 and files it under /verif/seeded/<id>/."""
 import os, sys, json, subprocess, shutil, time
 
-ALL = ["C01", "C02", "C03", "C04", "C05", "C06", "C07", "C08", "C09", "C10", "C11", "C12", "C13", "C14", "C18"]
+ALL = ["C01", "C02", "C03", "C04", "C05", "C06", "C07", "C08", "C09", "C10", "C11", "C12", "C13", "C14", "C15", "C16", "C17", "C18", "C19"]
 
 
 def sh(cmd, cwd=None, env=None, timeout=3600):
@@ -47,7 +47,7 @@ def main():
         rec["checks"] = {}
         for p in props:
             t0 = time.time()
-            rc, out = sh(["/verif/check", p], env=cenv)
+            rc, out = sh([os.path.join(os.path.dirname(os.path.dirname(os.path.abspath(__file__))), "check"), p], env=cenv)
             lines = [l for l in out.splitlines() if l.startswith("VIOLATION") or l.startswith("  ") or l.startswith("TOOL-ERROR")]
             rec["checks"][p] = {"rc": rc, "wall_s": round(time.time() - t0, 1), "lines": lines[:6]}
         rec["caught_by"] = [p for p, r in rec["checks"].items() if r["rc"] == 1]
